@@ -54,7 +54,7 @@ Print Assumptions int_result_is_signed_reduction.
 
 (** non-vacuity: the statements above are about accepted combinations *)
 Example accepted_counts :
-  List.length (filter (fun c => match resolve_bin T (fst c) (fst (snd c)) (snd (snd c)) with Some _ => true | None => false end) bin_entries) = 150%nat
+  List.length (filter (fun c => match resolve_bin T (fst c) (fst (snd c)) (snd (snd c)) with Some _ => true | None => false end) bin_entries) = 142%nat
   /\ (exists r, resolve_bin T Add TInt TInt = Some r) /\ (exists r, resolve_bin T FloorDiv TInt TNat = Some r).
 Proof. split; [vm_compute; reflexivity | split; eexists; vm_compute; reflexivity]. Qed.
 
